@@ -51,6 +51,56 @@ def check_cfg(chk, cfg, n, comps, label):
                 chk.fail(f"return value after segments {comp} differs from the uninterrupted run", {"case": {"cfg": cfg, "n": n, "segments": comp}})
 
 
+SIG_RL = "C05/rl-scheduler/live-split"
+
+
+def hist_fields(line):
+    return {k: v for k, v in (x.split("=", 1) for x in line.split(" ")[1:] if "=" in x) if k in ("n", "b", "params", "losses", "series", "bn", "ms")}
+
+
+def rl_live_split(chk: Check, rng):
+    """RL scheduler: the same batches in one calibrate() call and split over two calls on a live object.  (A restore is not
+    possible at all with this scheduler: it cannot be pickled — known finding of C04.)  The first case is the Lean witness
+    `rl_split_not_transparent`: an agent whose action is the parity of its policy() calls, 3 batches vs 1 + 2."""
+    import dataclasses
+    n_cases = 8 if chk.tier == "quick" else 80
+    for i in range(n_cases):
+        scn = ch.gen_scn(rng, sched="rl", max_batches=1)
+        scn.folder, scn.conv, scn.faults, scn.verbose = False, None, [], False
+        if i == 0:
+            a, b = 1, 2
+            scn.lineup = scn.lineup[:2] if len(scn.lineup) >= 2 else scn.lineup * 2
+            scn.actions = [k % 2 for k in range(60)]
+            scn.agent = "scripted"
+        else:
+            a, b = rng.randint(1, 3), rng.randint(1, 4)
+            scn.agent = rng.choice(["scripted", "eps"])
+        one = dataclasses.replace(scn, ops=[("C", a + b)])
+        two = dataclasses.replace(scn, ops=[("C", a), ("C", b)])
+        with warnings.catch_warnings():
+            warnings.simplefilter("ignore")
+            l1, i1 = ch.run_real(one)
+            l2, i2 = ch.run_real(two)
+        ok1, k1, x1, y1 = ch.compare(one, l1, i1)
+        ok2, k2, x2, y2 = ch.compare(two, l2, i2)
+        if not (ok1 and ok2):
+            chk.disagree("RL calibration (one call / two calls) != BlackIt.Calibrator with the consumed actions", {"scenario": scn_json(two), "impl": (x1 or x2 or "")[:300], "model": (y1 or y2 or "")[:300]})
+        h1, h2 = hist_fields(l1[-1]), hist_fields(l2[-1])
+        differs = [k for k in h1 if h1[k] != h2.get(k)]
+        chk.case(["rl-split", scn_json(two)], True, {"agent": scn.agent, "split": [a, b], "samplers_one_call": h1.get("ms"), "samplers_two_calls": h2.get("ms"),
+                                                      "actions_consumed_one_call": i1["actions"], "actions_consumed_two_calls": i2["actions"]})
+        chk.count(f"rl-split:{scn.agent}:{'differs' if differs else 'same'}")
+        if i == 0:
+            # the witness must behave on the real code as the theorem says: executed actions 0,1 in one call and 1,0 in two
+            chk.extra["lean_witness_rl_split"] = {"one_call": i1["actions"], "two_calls": i2["actions"]}
+            if i1["actions"] != [0, 1] or i2["actions"] != [1, 0]:
+                chk.disagree("the real RL scheduler does not replay the witness of theorem rl_split_not_transparent (expected actions [0,1] and [1,0])",
+                             {"one_call": i1["actions"], "two_calls": i2["actions"]})
+        if differs:
+            chk.fail(f"RL scheduler, {scn.agent} agent: {a}+{b} batches over two calibrate() calls on a live object differ from one call of {a + b} in {differs} "
+                     f"(samplers {h2.get('ms')} vs {h1.get('ms')})", {"case": {"kind": "rl-split", "scenario": scn_json(two), "split": [a, b]}}, signature=SIG_RL)
+
+
 def run(chk: Check):
     rng = chk.rng
     chk.rule = ("(a) stub scenarios with explicit checkpoints and restores vs the Lean model; (b) real twins: line-ups drawn from the nine built-in samplers "
@@ -59,7 +109,8 @@ def run(chk: Check):
                 "non-trivial = composition with >= 2 segments")
     chk.trusted_base = ["Lean 4.33 kernel", "contract validated here, not proved: every built-in sampler is a state machine whose whole state survives pickle "
                         "(sklearn/xgboost/scipy objects)", "serialisers (C04)", "harness/vp/twin.py"]
-    chk.assumptions = ["no convergence precision (early stopping is C14)", "round-robin line-ups (multi-session RL is C10)"]
+    chk.assumptions = ["no convergence precision (early stopping is C14)",
+                       "RL scheduler: only live splits can be exercised (it cannot be pickled, C04 finding); they change the history — known finding, Lean witness rl_split_not_transparent"]
     chk.proof_stage(PROP_FILE)
     # (a) model correspondence on stub scenarios
     for i in range(60 if chk.tier == "quick" else 1000):
@@ -73,6 +124,7 @@ def run(chk: Check):
         if not ok:
             chk.disagree("Calibrator checkpoint/restore/continue != BlackIt.Calibrator",
                          {"scenario": scn_json(scn), "op_index": k, "fields": ch.diff_fields(a, b) if k is not None and k >= 0 else None, "impl": a[:500], "model": b[:500]})
+    rl_live_split(chk, rng)
     # (b) exhaustive compositions on real twins
     n_small = 4 if chk.tier == "quick" else 6
     n_cfg = 3 if chk.tier == "quick" else 12
@@ -87,6 +139,15 @@ def run(chk: Check):
                "ensemble": 1, "seed": rng.randrange(10 ** 6), "n_jobs": 1}
         n = 2 * len(cfg["lineup"]) + 1
         check_cfg(chk, cfg, n, [[(1, "restore")] * (n - 1) + [(1, "end")], [(2, "restore"), (n - 2, "end")]], "targeted")
+    # targeted: samplers that carry state of their own from one of their batches to the next (swarm positions/velocities/bests, CORS
+    # balls): a restore at every boundary, and a single restore at each boundary in turn, on a fine grid (raw != snapped positions)
+    for i in range(2 if chk.tier == "quick" else 20):
+        names = [["ParticleSwarmSampler"], ["CORSSampler"], ["ParticleSwarmSampler", "CORSSampler"], ["ParticleSwarmSampler", "ParticleSwarmSampler"]][(i + rng.randrange(4)) % 4 if i else 0]
+        cfg = {"lineup": [("HaltonSampler", 3, None)] + [(nm, rng.choice([2, 3, 4]), None) for nm in names], "dims": rng.choice([2, 3]), "loss": "minkowski",
+               "ensemble": 1, "seed": rng.randrange(10 ** 6), "n_jobs": 1, "prec": rng.choice([0.01, 0.001])}
+        n = 3 * len(cfg["lineup"]) + 1
+        comps = [[(1, "restore")] * (n - 1) + [(1, "end")]] + [[(j, "restore"), (n - j, "end")] for j in range(1, n)]
+        check_cfg(chk, cfg, n, comps, "stateful")
     # all nine samplers, sampled compositions of a longer run
     for i in range(4 if chk.tier == "quick" else 40):
         cfg = gen_cfg(rng, k_samplers=9)
@@ -107,6 +168,18 @@ def replay(path: Path) -> int:
     bad = 0
     for fi in r.get("failing_inputs", []):
         c = fi.get("case")
+        if c and c.get("kind") == "rl-split":
+            import dataclasses
+            scn = scn_from_json(c["scenario"])
+            a, b = c["split"]
+            with warnings.catch_warnings():
+                warnings.simplefilter("ignore")
+                l1, _ = ch.run_real(dataclasses.replace(scn, ops=[("C", a + b)]))
+                l2, _ = ch.run_real(dataclasses.replace(scn, ops=[("C", a), ("C", b)]))
+            fails = hist_fields(l1[-1]) != hist_fields(l2[-1])
+            print("REPLAY", fi["what"][:120], "->", "still fails" if fails else "passes now")
+            bad += fails
+            continue
         if not c or "cfg" not in c:
             continue
         cfg = c["cfg"]; cfg["lineup"] = [tuple(x) for x in cfg["lineup"]]
